@@ -53,6 +53,7 @@ type Harness struct {
 	Bounded  string
 	Contract *Contract
 	Real     map[string]bool // targets whose use-contracts are switched off in this harness (the real body runs)
+	Use      map[string]bool // opt-in use-contracts switched on in this harness
 	Paths    bool            // path-sensitive execution (no joins); infeasible paths are pruned with the solver
 }
 
@@ -60,6 +61,7 @@ type Contract struct {
 	Target     string
 	Fn         *ssa.Function
 	UseAtCalls bool
+	OptIn      bool // use-contract applied only where a harness asks for it (use=<target>)
 	Pkg        string // declaring package: use-contracts apply to harnesses of that package
 	Props      []string
 }
@@ -224,7 +226,7 @@ func (w *World) readDirectives(pkg *ssa.Package, f *ast.File) error {
 					return fmt.Errorf("%s: lemma directive without function", where)
 				}
 				for _, g := range fns {
-					w.Harnesses = append(w.Harnesses, &Harness{Name: shortFn(g), Fn: g, Kind: "lemma", Props: props, Expect: parseExpect(kv["expect"]), Bounded: kv["bounded"], Paths: kv["mode"] == "paths", Real: realSet(kv["real"])})
+					w.Harnesses = append(w.Harnesses, &Harness{Name: shortFn(g), Fn: g, Kind: "lemma", Props: props, Expect: parseExpect(kv["expect"]), Bounded: kv["bounded"], Paths: kv["mode"] == "paths", Real: realSet(kv["real"]), Use: realSet(kv["use"])})
 				}
 			case "contract":
 				if fn == nil {
@@ -239,6 +241,9 @@ func (w *World) readDirectives(pkg *ssa.Package, f *ast.File) error {
 					for _, p := range pos {
 						if p == "use" {
 							ct.UseAtCalls = true
+						}
+						if p == "optin" { // applied only in harnesses that list the target under use=
+							ct.UseAtCalls, ct.OptIn = true, true
 						}
 					}
 					if w.byName[target] == nil && !strings.Contains(target, "?") {
